@@ -13,8 +13,9 @@ import (
 // harness clock) and, in lock step, against the reference model below: a fixed table of the
 // outstanding (uid, session, message) keys with a committed flag, the committed row and the
 // outstanding bind attempts (token + row). Keys, operations and tokens are chosen with
-// zzsym.Choice (concrete on every path); delivery times, the clock, the TTL and the row
-// metadata are symbolic.
+// zzsym.Choice (concrete on every path); delivery times, the clock and the row metadata are
+// symbolic. After every step the counter, both indexes, every result field and every returned
+// row are compared with the model; at the end every key is acknowledged and compared.
 // ---------------------------------------------------------------------------------------
 
 const c32MaxKeys = 8
@@ -37,10 +38,13 @@ type c32Issued struct {
 }
 
 type c32State struct {
-	t      *AckTracker
-	now    int64
-	nkeys  int // size of the key domain on this run
-	m      [c32MaxKeys]c32Entry
+	t     *AckTracker
+	now   int64
+	dom   []int // key domain of this run (indexes into the 8-key table)
+	full  bool  // full alphabet: invalid identities, forged tokens, every batch shape, every TTL
+	limit int   // MaxPendingPerSession (0 = unlimited)
+	m     [c32MaxKeys]c32Entry
+	// issued lists every token handed out so far, including stale ones
 	issued []c32Issued
 }
 
@@ -80,46 +84,76 @@ func c32KeyOf(uid string, sid, mid uint64) int {
 	return k
 }
 
-func c32Time(name string) int64 {
-	v := zzsym.I64(name)
-	zzsym.Assume(v >= 0 && v < 1<<30)
-	return v
+// c32Time: a Unix second in [0, 2^30), bounded by construction (no solver query needed).
+func c32Time(name string) int64 { return int64(zzsym.U32(name) >> 2) }
+
+// identity of key k; k = -1, -2, -3 are the three invalid identities.
+func c32Ident(k int) (string, uint64, uint64) {
+	switch {
+	case k >= 0:
+		return c32UID(k), c32SID(k), c32MID(k)
+	case k == -1:
+		return "a", 0, 1
+	case k == -2:
+		return "", 1, 1
+	default:
+		return "a", 1, 0
+	}
 }
 
-// c32Row builds a delivery row for key k (k < 0: an invalid row) with symbolic metadata.
-func c32Row(k int) PendingRecvAck {
+// c32Row builds a delivery row for key k with symbolic metadata. clock: leave DeliveredAt zero
+// so that the tracker stamps the row with its clock; otherwise the caller supplies a non-zero
+// symbolic delivery second.
+func c32Row(k int, clock bool) PendingRecvAck {
 	row := PendingRecvAck{
 		MessageSeq:  zzsym.U64("seq"),
 		ChannelID:   "ch",
 		ChannelType: zzsym.U8("ctype"),
-		DeliveredAt: c32Time("at"),
 	}
-	switch {
-	case k >= 0:
-		row.UID, row.SessionID, row.MessageID = c32UID(k), c32SID(k), c32MID(k)
-	case k == -1:
-		row.UID, row.SessionID, row.MessageID = "a", 0, 1
-	case k == -2:
-		row.UID, row.SessionID, row.MessageID = "", 1, 1
-	default:
-		row.UID, row.SessionID, row.MessageID = "a", 1, 0
+	if !clock {
+		row.DeliveredAt = c32Time("at")
+		zzsym.Assume(row.DeliveredAt != 0)
 	}
+	row.UID, row.SessionID, row.MessageID = c32Ident(k)
 	return row
 }
 
-// c32PickKey chooses a key of the domain or (last value) an invalid identity.
-func (s *c32State) pickKey(name string) int {
-	k := zzsym.Choice(name, s.nkeys+1)
-	if k == s.nkeys {
-		return -1 - zzsym.Choice(name+".bad", 3)
+func (s *c32State) inDom(k int) bool {
+	for _, d := range s.dom {
+		if d == k {
+			return true
+		}
 	}
-	return k
+	return false
+}
+
+// pickKey chooses a key of the domain or (full alphabet) one of the invalid identities.
+func (s *c32State) pickKey() int {
+	n := len(s.dom)
+	if s.full {
+		n += 3
+	}
+	c := zzsym.Choice("key", n)
+	if c >= len(s.dom) {
+		return len(s.dom) - c - 1
+	}
+	return s.dom[c]
 }
 
 func (s *c32State) size() int {
 	n := 0
 	for i := range s.m {
 		if s.m[i].present {
+			n++
+		}
+	}
+	return n
+}
+
+func (s *c32State) sessionSize(k int) int {
+	n := 0
+	for i := range s.m {
+		if s.m[i].present && i&^1 == k&^1 {
 			n++
 		}
 	}
@@ -133,6 +167,11 @@ func (s *c32State) fresh(tok AckBindToken) bool {
 		}
 	}
 	return true
+}
+
+// admits: the per-session limit only rejects keys that are not outstanding yet.
+func (s *c32State) admits(k int) bool {
+	return s.limit <= 0 || s.m[k].present || s.sessionSize(k) < s.limit
 }
 
 // modelBind records one accepted bind attempt; it returns whether the key is new.
@@ -177,21 +216,32 @@ func (e *c32Entry) rowOK(got PendingRecvAck) bool {
 	return ok
 }
 
+// c32CeilSeconds: the smallest whole number of seconds that is >= ttl (ttl concrete, > 0).
+func c32CeilSeconds(ttl time.Duration) int64 {
+	sec := int64(0)
+	for time.Duration(sec)*time.Second < ttl {
+		sec++
+	}
+	return sec
+}
+
 // idle reports whether every delivery candidate of the entry (committed row, outstanding
-// attempts) has been delivered at least ttl ago.
-func (s *c32State) idle(e *c32Entry, ttl time.Duration) bool {
+// attempts) was delivered at least ttlSec seconds before the clock.
+func (s *c32State) idle(e *c32Entry, ttlSec int64) bool {
 	all := true
 	if e.committed {
-		all = all && time.Duration(s.now-e.row.DeliveredAt)*time.Second >= ttl
+		all = all && s.now-e.row.DeliveredAt >= ttlSec
 	}
 	for i := range e.attempts {
-		all = all && time.Duration(s.now-e.attempts[i].row.DeliveredAt)*time.Second >= ttl
+		all = all && s.now-e.attempts[i].row.DeliveredAt >= ttlSec
 	}
 	return all
 }
 
-func (s *c32State) normalize(row PendingRecvAck) PendingRecvAck {
-	if row.DeliveredAt == 0 {
+// stamp mirrors the documented defaulting of DeliveredAt: a row without a delivery second gets
+// the tracker clock (DeliveredAt is concrete 0 or assumed non-zero, see c32Row).
+func (s *c32State) stamp(row PendingRecvAck, clock bool) PendingRecvAck {
+	if clock {
 		row.DeliveredAt = s.now
 	}
 	return row
@@ -213,7 +263,7 @@ func (s *c32State) checkCounts() {
 	}
 	zzsym.Assert(byMsg == want, "sum of len(byMessage) differs from the model size")
 	zzsym.Assert(bySess == want, "sum of len(bySession[.]) differs from the model size")
-	for k := 0; k < s.nkeys; k++ {
+	for k := 0; k < c32MaxKeys; k++ {
 		e := &s.m[k]
 		sh := s.t.shard(c32SID(k))
 		got, ok := sh.byMessage[ackMessageKey{uid: c32UID(k), sessionID: c32SID(k), messageID: c32MID(k)}]
@@ -232,18 +282,21 @@ func (s *c32State) checkCounts() {
 	}
 }
 
-func (s *c32State) opBindResult() {
-	k := s.pickKey("key")
-	row := c32Row(k)
+func (s *c32State) bindResult(k int, clock bool) {
+	row := c32Row(k, clock)
 	before := s.size()
 	res := s.t.BindResult(row)
-	if k < 0 {
-		zzsym.Reach("bind-invalid")
-		zzsym.Assert(!res.Bound && !res.Added && !res.Token.Valid(), "invalid row was bound")
-		zzsym.Assert(res.PendingCount == before, "BindResult(invalid).PendingCount")
+	if k < 0 || !s.admits(k) {
+		if k < 0 {
+			zzsym.Reach("bind-invalid")
+		} else {
+			zzsym.Reach("bind-over-limit")
+		}
+		zzsym.Assert(!res.Bound && !res.Added && !res.Token.Valid(), "a row that must be rejected was bound")
+		zzsym.Assert(res.PendingCount == before, "rejected BindResult changed PendingCount")
 		return
 	}
-	row = s.normalize(row)
+	row = s.stamp(row, clock)
 	zzsym.Assert(res.Bound && res.Token.Valid(), "valid row was not bound")
 	zzsym.Assert(s.fresh(res.Token), "bind token reused")
 	added := s.modelBind(k, row, res.Token)
@@ -257,75 +310,63 @@ func (s *c32State) opBindResult() {
 	zzsym.Observe("bind", zzsym.B2U(res.Added), uint64(res.PendingCount), res.Token.id)
 }
 
-func (s *c32State) opBind() {
-	k := s.pickKey("key")
-	row := c32Row(k)
+func (s *c32State) bindCompat(k int, clock bool) {
+	row := c32Row(k, clock)
+	before := s.size()
 	ok := s.t.Bind(row)
-	if k < 0 {
-		zzsym.Assert(!ok, "Bind accepted an invalid row")
+	if k < 0 || !s.admits(k) {
+		zzsym.Assert(!ok, "Bind accepted a row that must be rejected")
+		zzsym.Assert(s.t.PendingCount() == before, "rejected Bind changed PendingCount")
 		return
 	}
 	zzsym.Reach("bind-compat")
 	zzsym.Assert(ok, "Bind rejected a valid row")
-	row = s.normalize(row)
 	e := &s.m[k]
 	if !e.present {
 		*e = c32Entry{present: true}
 	}
 	// reserve + finish: the row becomes the committed one, other reservations are untouched
 	e.committed = true
-	e.row = row
+	e.row = s.stamp(row, clock)
 }
 
-func (s *c32State) opBindBatch() {
-	n := zzsym.Choice("batch.n", 3)
-	var keys [2]int
+func (s *c32State) bindBatch(keys []int, clock bool) {
+	n := len(keys)
 	rows := make([]PendingRecvAck, n)
-	for i := 0; i < n; i++ {
-		if i == 0 {
-			keys[i] = s.pickKey("key")
-		} else {
-			// second item relative to the first: same key, sibling message, other session
-			// (= other shard), other uid, or invalid
-			base := keys[0]
-			if base < 0 {
-				base = 0
-			}
-			switch zzsym.Choice("batch.rel", 5) {
-			case 0:
-				keys[i] = base
-			case 1:
-				keys[i] = base ^ 1
-			case 2:
-				keys[i] = base ^ 2
-			case 3:
-				keys[i] = base ^ 4
-			default:
-				keys[i] = -1
-			}
-			if keys[i] >= s.nkeys {
-				keys[i] = base
-			}
-		}
-		rows[i] = c32Row(keys[i])
+	for i := range keys {
+		rows[i] = c32Row(keys[i], clock)
 	}
 	before := s.size()
 	res := s.t.BindBatch(rows)
 	zzsym.Assert(len(res.Tokens) == n, "BindBatch tokens not aligned with the input")
+	// items are admitted shard by shard (shard 0 = session 2 first), input order inside a shard
 	bound, added := 0, 0
 	var shardUsed [2]bool
-	for i := 0; i < n; i++ {
-		if keys[i] < 0 {
-			zzsym.Assert(!res.Tokens[i].Valid(), "BindBatch bound an invalid row")
-			continue
+	for shard := 0; shard < 2; shard++ {
+		for i := 0; i < n; i++ {
+			k := keys[i]
+			if k < 0 {
+				if shard == 0 {
+					zzsym.Assert(!res.Tokens[i].Valid(), "BindBatch bound an invalid row")
+				}
+				continue
+			}
+			if int(c32SID(k)%2) != shard {
+				continue
+			}
+			shardUsed[shard] = true
+			if !s.admits(k) {
+				zzsym.Reach("batch-over-limit")
+				zzsym.Assert(!res.Tokens[i].Valid(), "BindBatch bound a row over the session limit")
+				continue
+			}
+			zzsym.Assert(res.Tokens[i].Valid(), "BindBatch rejected a valid row")
+			zzsym.Assert(s.fresh(res.Tokens[i]), "batch bind token reused")
+			if s.modelBind(k, s.stamp(rows[i], clock), res.Tokens[i]) {
+				added++
+			}
+			bound++
 		}
-		zzsym.Assert(res.Tokens[i].Valid(), "BindBatch rejected a valid row")
-		zzsym.Assert(s.fresh(res.Tokens[i]), "batch bind token reused")
-		if s.modelBind(keys[i], s.normalize(rows[i]), res.Tokens[i]) {
-			added++
-		}
-		bound++
-		shardUsed[c32SID(keys[i])%2] = true
 	}
 	shards := 0
 	for _, u := range shardUsed {
@@ -333,7 +374,7 @@ func (s *c32State) opBindBatch() {
 			shards++
 		}
 	}
-	if n == 2 && bound == 2 {
+	if bound == 2 {
 		zzsym.Reach("batch-two")
 	}
 	zzsym.Assert(res.Bound == bound, "BindBatch.Bound differs from the model")
@@ -343,34 +384,56 @@ func (s *c32State) opBindBatch() {
 	zzsym.Observe("batch", uint64(res.Bound), uint64(res.Added), uint64(res.Shards), uint64(res.PendingCount))
 }
 
-// pickToken chooses one of the tokens handed out so far (with the key it was bound for, or a
-// neighbouring key), the zero token, or a token that was never handed out.
-func (s *c32State) pickToken() (AckBindToken, int) {
-	i := zzsym.Choice("tok", len(s.issued)+2)
-	if i == len(s.issued) {
-		return AckBindToken{}, 0
+// c32Pairs: the batch shapes used by the reduced alphabet, as indexes into the key domain:
+// the same key twice, two messages of one session, two sessions in shard order and against it.
+var c32Pairs = [...][2]int{{0, 0}, {0, 1}, {0, 2}, {2, 0}, {0, 3}}
+
+func (s *c32State) opBindBatch() {
+	if !s.full {
+		np := len(c32Pairs)
+		if len(s.dom) < 4 {
+			np--
+		}
+		p := c32Pairs[zzsym.Choice("batch.pair", np)]
+		s.bindBatch([]int{s.dom[p[0]%len(s.dom)], s.dom[p[1]%len(s.dom)]}, false)
+		return
 	}
-	if i == len(s.issued)+1 {
-		return AckBindToken{id: 1 << 40}, 0
+	n := zzsym.Choice("batch.n", 3)
+	keys := make([]int, n)
+	for i := range keys {
+		keys[i] = s.pickKey()
+	}
+	s.bindBatch(keys, n > 0 && zzsym.Choice("batch.clock", 2) == 1)
+}
+
+// pickToken chooses one of the tokens handed out so far, paired with the key it was bound for
+// or with the sibling message of the same session; with the full alphabet also with any other
+// key, the zero token and a token that was never handed out.
+func (s *c32State) pickToken() (AckBindToken, int) {
+	n := len(s.issued) + 1
+	if s.full {
+		n++
+	}
+	i := zzsym.Choice("tok", n)
+	if i == len(s.issued) {
+		return AckBindToken{}, s.dom[0]
+	}
+	if i > len(s.issued) {
+		return AckBindToken{id: 1 << 40}, s.dom[0]
 	}
 	k := s.issued[i].key
-	switch zzsym.Choice("tok.key", 4) {
-	case 1:
-		k ^= 1
-	case 2:
-		k ^= 2
-	case 3:
-		k ^= 4
+	if s.full {
+		return s.issued[i].tok, s.dom[zzsym.Choice("tok.key", len(s.dom))]
 	}
-	if k >= s.nkeys {
-		k = s.issued[i].key
+	if zzsym.Choice("tok.key", 2) == 1 && s.inDom(k^1) {
+		k ^= 1
 	}
 	return s.issued[i].tok, k
 }
 
 func (s *c32State) opFinishBind() {
 	tok, k := s.pickToken()
-	row := c32Row(k) // only the identity of the row matters to FinishBind
+	row := c32Row(k, false) // only the identity of the row matters to FinishBind
 	got := s.t.FinishBind(row, tok)
 	e := &s.m[k]
 	a, ok := e.takeAttempt(tok)
@@ -389,7 +452,7 @@ func (s *c32State) opFinishBind() {
 
 func (s *c32State) opCancelBind() {
 	tok, k := s.pickToken()
-	row := c32Row(k)
+	row := c32Row(k, false)
 	res := s.t.CancelBind(row, tok)
 	e := &s.m[k]
 	wasCommitted := e.present && e.committed
@@ -419,16 +482,7 @@ func (s *c32State) opCancelBind() {
 
 func (s *c32State) ackKey(k int) {
 	ack := Recvack{MessageSeq: zzsym.U64("ackseq")}
-	switch {
-	case k >= 0:
-		ack.UID, ack.SessionID, ack.MessageID = c32UID(k), c32SID(k), c32MID(k)
-	case k == -1:
-		ack.UID, ack.SessionID, ack.MessageID = "a", 0, 1
-	case k == -2:
-		ack.UID, ack.SessionID, ack.MessageID = "", 1, 1
-	default:
-		ack.UID, ack.SessionID, ack.MessageID = "a", 1, 0
-	}
+	ack.UID, ack.SessionID, ack.MessageID = c32Ident(k)
 	got, found := s.t.Ack(ack)
 	if k < 0 {
 		zzsym.Assert(!found && got == PendingRecvAck{}, "Ack with an invalid identity matched something")
@@ -449,16 +503,28 @@ func (s *c32State) ackKey(k int) {
 	}
 }
 
-func (s *c32State) opAck() {
-	s.ackKey(s.pickKey("key"))
-}
-
 func (s *c32State) opSessionClosed() {
-	c := zzsym.Choice("sess", 5)
-	if c == 4 {
-		bad := zzsym.Choice("sess.bad", 2)
+	// the sessions of the key domain, each once
+	var sess []int
+	for _, d := range s.dom {
+		dup := false
+		for _, b := range sess {
+			if b == d&^1 {
+				dup = true
+			}
+		}
+		if !dup {
+			sess = append(sess, d&^1)
+		}
+	}
+	n := len(sess)
+	if s.full {
+		n += 2
+	}
+	c := zzsym.Choice("sess", n)
+	if c >= len(sess) {
 		var got []PendingRecvAck
-		if bad == 0 {
+		if c == len(sess) {
 			got = s.t.SessionClosed("", 1)
 		} else {
 			got = s.t.SessionClosed("a", 0)
@@ -466,12 +532,9 @@ func (s *c32State) opSessionClosed() {
 		zzsym.Assert(len(got) == 0, "SessionClosed with an invalid identity removed something")
 		return
 	}
-	base := c << 1 // keys base and base|1 are the session's two messages
-	if base >= s.nkeys {
-		base = 0
-	}
+	base := sess[c] // keys base and base|1 are the session's two messages
 	got := s.t.SessionClosed(c32UID(base), c32SID(base))
-	n := s.checkRemoved(got, func(k int) bool { return k&^1 == base })
+	n = s.checkRemoved(got, func(k int) bool { return k&^1 == base })
 	if n > 0 {
 		zzsym.Reach("session-removed")
 	}
@@ -486,8 +549,8 @@ func (s *c32State) checkRemoved(got []PendingRecvAck, sel func(k int) bool) int 
 	var seen [c32MaxKeys]bool
 	for i := range got {
 		k := c32KeyOf(got[i].UID, got[i].SessionID, got[i].MessageID)
-		zzsym.Assert(k >= 0 && k < s.nkeys, "removed row with an unknown identity")
-		if k < 0 || k >= s.nkeys {
+		zzsym.Assert(k >= 0, "removed row with an unknown identity")
+		if k < 0 {
 			continue
 		}
 		zzsym.Assert(!seen[k], "the same key was removed twice")
@@ -497,7 +560,7 @@ func (s *c32State) checkRemoved(got []PendingRecvAck, sel func(k int) bool) int 
 		zzsym.Assert(s.m[k].present && s.m[k].rowOK(got[i]), "removed row is not the delivery's row")
 	}
 	n := 0
-	for k := 0; k < s.nkeys; k++ {
+	for k := 0; k < c32MaxKeys; k++ {
 		if s.m[k].present && sel(k) {
 			n++
 			zzsym.Assert(seen[k], "a key of the requested set was not removed")
@@ -510,14 +573,14 @@ func (s *c32State) checkRemoved(got []PendingRecvAck, sel func(k int) bool) int 
 
 // c32TTLs are the concrete TTLs used inside histories (delivery times and the clock stay
 // symbolic); the rounding of a symbolic TTL to whole seconds is checked by Harness_C32_ExpireTTL.
-var c32TTLs = [...]time.Duration{0, 1500 * time.Millisecond, time.Nanosecond, time.Second, -time.Second, 3 * time.Second}
+var c32TTLs = [...]time.Duration{1500 * time.Millisecond, 0, time.Nanosecond, time.Second, -time.Second, 3 * time.Second}
 
 func (s *c32State) opExpire() {
-	n := 2
-	if zzsym.Thorough() {
-		n = len(c32TTLs)
+	if !s.full {
+		s.expire(c32TTLs[0])
+		return
 	}
-	s.expire(c32TTLs[zzsym.Choice("ttl", n)])
+	s.expire(c32TTLs[zzsym.Choice("ttl", len(c32TTLs))])
 }
 
 func (s *c32State) expire(ttl time.Duration) {
@@ -527,16 +590,17 @@ func (s *c32State) expire(ttl time.Duration) {
 		zzsym.Assert(len(got) == 0, "Expire with a non-positive ttl removed something")
 		return
 	}
+	ttlSec := c32CeilSeconds(ttl)
 	kept := 0
-	for k := 0; k < s.nkeys; k++ {
-		if s.m[k].present && !s.idle(&s.m[k], ttl) {
+	for k := 0; k < c32MaxKeys; k++ {
+		if s.m[k].present && !s.idle(&s.m[k], ttlSec) {
 			kept++
 		}
 	}
 	if kept > 0 {
 		zzsym.Reach("expire-kept")
 	}
-	n := s.checkRemoved(got, func(k int) bool { return s.idle(&s.m[k], ttl) })
+	n := s.checkRemoved(got, func(k int) bool { return s.idle(&s.m[k], ttlSec) })
 	if n > 0 {
 		zzsym.Reach("expire-removed")
 	}
@@ -550,17 +614,17 @@ func (s *c32State) opReset() {
 	zzsym.Reach("reset")
 }
 
-func (s *c32State) step(ops int) {
+func (s *c32State) step() {
 	s.now = c32Time("now")
-	switch zzsym.Choice("op", ops) {
+	switch zzsym.Choice("op", 9) {
 	case 0:
-		s.opBindResult()
+		s.bindResult(s.pickKey(), s.full && zzsym.Choice("clock", 2) == 1)
 	case 1:
 		s.opFinishBind()
 	case 2:
 		s.opCancelBind()
 	case 3:
-		s.opAck()
+		s.ackKey(s.pickKey())
 	case 4:
 		s.opSessionClosed()
 	case 5:
@@ -568,39 +632,132 @@ func (s *c32State) step(ops int) {
 	case 6:
 		s.opBindBatch()
 	case 7:
-		s.opBind()
+		s.bindCompat(s.pickKey(), !s.full || zzsym.Choice("clock", 2) == 1)
 	default:
 		s.opReset()
 	}
 	s.checkCounts()
 }
 
-// drain acknowledges every key of the domain: what is observable through Ack is exactly the
-// model's set, and the tracker ends empty.
+// drain acknowledges every key: what is observable through Ack is exactly the model's set, and
+// the tracker ends empty.
 func (s *c32State) drain() {
-	for k := 0; k < s.nkeys; k++ {
+	for k := 0; k < c32MaxKeys; k++ {
 		s.ackKey(k)
 	}
 	s.checkCounts()
 	zzsym.Assert(s.t.PendingCount() == 0, "tracker not empty after acknowledging every key")
+	zzsym.Observe("end", uint64(len(s.issued)))
 }
 
-func c32New(nkeys int) *c32State {
-	s := &c32State{nkeys: nkeys}
-	s.t = NewAckTracker(AckTrackerOptions{ShardCount: 2, Now: func() int64 { return s.now }})
+func c32New(dom []int, limit int) *c32State {
+	s := &c32State{dom: dom, limit: limit}
+	s.t = NewAckTracker(AckTrackerOptions{ShardCount: 2, MaxPendingPerSession: limit, Now: func() int64 { return s.now }})
 	return s
 }
 
-// Harness_C32_History: every history of k operations over the full operation set.
-func Harness_C32_History() {
-	k, nkeys := 2, 8
+// key domains. Tri: two messages of one session and a second session of the same uid in the
+// other shard. Quad adds a different uid with the same session and message ids as key 0.
+var (
+	c32Tri  = []int{0, 1, 2}
+	c32Quad = []int{0, 1, 2, 4}
+)
+
+func c32Depth(quick, thorough int) int {
 	if zzsym.Thorough() {
-		k = 4
+		return thorough
 	}
-	s := c32New(nkeys)
-	for i := 0; i < k; i++ {
-		s.step(9)
+	return quick
+}
+
+// Harness_C32_History: every history of k operations (reduced alphabet) from the empty tracker.
+func Harness_C32_History() {
+	s := c32New(c32Tri, 0)
+	for i, k := 0, c32Depth(3, 4); i < k; i++ {
+		s.step()
 	}
 	s.drain()
-	zzsym.Observe("end", uint64(len(s.issued)))
+}
+
+// Harness_C32_HistoryUIDs: shorter histories over the domain with two uids that share session
+// and message ids.
+func Harness_C32_HistoryUIDs() {
+	s := c32New(c32Quad, 0)
+	for i, k := 0, c32Depth(2, 3); i < k; i++ {
+		s.step()
+	}
+	s.drain()
+}
+
+// seedRedelivery builds, with the real operations, the state of the property's rollback clause:
+// key 0 delivered successfully once and being re-delivered, key 1 delivered but not finished.
+func (s *c32State) seedRedelivery() {
+	s.now = c32Time("now")
+	s.bindResult(0, false)
+	tok := s.issued[0].tok
+	zzsym.Assert(s.t.FinishBind(c32Row(0, false), tok), "seed: FinishBind failed")
+	a, _ := s.m[0].takeAttempt(tok)
+	s.m[0].committed, s.m[0].row = true, a.row
+	s.now = c32Time("now")
+	s.bindResult(0, true)
+	s.bindResult(1, false)
+	s.checkCounts()
+}
+
+// Harness_C32_Redelivery: histories of k operations starting from the re-delivery state.
+func Harness_C32_Redelivery() {
+	s := c32New(c32Tri, 0)
+	s.seedRedelivery()
+	for i, k := 0, c32Depth(2, 3); i < k; i++ {
+		s.step()
+	}
+	s.drain()
+}
+
+// Harness_C32_SingleOp: one operation of the full alphabet (invalid identities, zero and forged
+// tokens, tokens presented with any key, every batch shape up to 2 items, non-positive and
+// fractional TTLs, clock-stamped rows) on the re-delivery state extended by a second uid.
+func Harness_C32_SingleOp() {
+	s := c32New(c32Quad, 0)
+	s.seedRedelivery()
+	s.bindCompat(4, true)
+	s.full = true
+	s.step()
+	s.drain()
+}
+
+// Harness_C32_SessionLimit: histories with MaxPendingPerSession = 1: a second message of a
+// session is rejected without any effect, re-binding an outstanding key is still accepted.
+func Harness_C32_SessionLimit() {
+	s := c32New(c32Tri, 1)
+	for i, k := 0, c32Depth(2, 3); i < k; i++ {
+		s.step()
+	}
+	s.drain()
+}
+
+// Harness_C32_ExpireTTL: the TTL is rounded up to whole seconds: an entry is removed exactly
+// when ttl <= (clock - delivery second) * 1s, for a symbolic ttl of up to 4 s.
+func Harness_C32_ExpireTTL() {
+	s := c32New(c32Tri, 0)
+	s.now = c32Time("now")
+	s.bindResult(0, false)
+	s.now = c32Time("now")
+	ttl := time.Duration(zzsym.I64("ttl"))
+	zzsym.Assume(ttl > 0 && ttl <= 4*time.Second)
+	age := s.now - s.m[0].attempts[0].row.DeliveredAt
+	zzsym.Assume(age >= -8 && age <= 8)
+	got := s.t.Expire(ttl)
+	due := time.Duration(age)*time.Second >= ttl
+	if len(got) == 0 {
+		zzsym.Reach("ttl-kept")
+		zzsym.Assert(!due, "an entry idle for at least the ttl was kept")
+	} else {
+		zzsym.Reach("ttl-removed")
+		zzsym.Assert(due, "an entry idle for less than the ttl was removed")
+		zzsym.Assert(len(got) == 1 && s.m[0].rowOK(got[0]), "Expire returned a foreign row")
+		s.m[0] = c32Entry{}
+	}
+	s.checkCounts()
+	s.drain()
 }
